@@ -38,6 +38,8 @@ class DigestMon(Monitor):
 def one(case, mode, pool=None):
     c = copy.deepcopy(case)
     c["eval"] = mode
+    if mode == "vector" and case.get("vec_out"):
+        c["target"]["vec_out"] = case["vec_out"]  # the vectorised twin returns a re-used output array (or a read-only view of it): still pointwise identical
     if pool is not None:
         c["pool"] = pool
     else:
@@ -130,6 +132,7 @@ def cases(seed, tier):
         c["ret"] = r.choice([None, None, "npfloat", "arr0"])
         c["lazy"] = r.random() < 0.3
         c["with_args"] = r.random() < 0.3
+        c["vec_out"] = r.choice([None, None, "buffer", "readonly"])
         out.append(c)
     # batches far above (and not a multiple of) any block size an evaluation path might introduce; cheap: few iterations, simple kernel
     from .. import targets as T
@@ -139,7 +142,7 @@ def cases(seed, tier):
         d = r.choice([1, 2])
         out.append(dict(seed=sch.np_seed(f"sb{k}"), target=dict(T.spec_gauss(d=d, mu=0.2, sig=round(r.uniform(0.1, 0.3), 3)), kind="gauss", **({"blobs": 1} if k % 3 == 2 else {})),
                         cfg=dict(n_particles=N, ess_ratio=1.0, sample=r.choice(["rwm", "tpcn"]), resample="mult", clustering=False, random_state=r.randrange(1000), n_steps=1, n_max_steps=2),
-                        n_total=2 * N, scenario="plain", eval="scalar", W=r.choice([3, 16]), Wint=r.choice([2, 4]), n_orders=1, ret=None, lazy=False, with_args=False, big=True))
+                        n_total=2 * N, scenario="plain", eval="scalar", W=r.choice([3, 16]), Wint=r.choice([2, 4]), n_orders=1, ret=None, lazy=False, with_args=False, big=True, vec_out=r.choice([None, "buffer"])))
     return out
 
 
